@@ -80,6 +80,15 @@ class ReferenceImpl(Derivable, Impl):
     def on_inherit(self, updater, bases):
 
         self.model.clear_obj(self)
+        prev = self.interface
+        self._inherit_interface(updater, bases)
+        if self.interface is not prev:
+            # Values read through an attribute path (Space.ref)
+            self.model.clear_attr_referrers(self)
+        self.container.notify()
+
+    def _inherit_interface(self, updater, bases):
+
         if bases[0].has_interface():
 
             if self.refmode == "absolute":
@@ -105,7 +114,6 @@ class ReferenceImpl(Derivable, Impl):
                     raise ValueError("must not happen")
         else:
             self.interface = bases[0].interface
-        self.container.notify()
 
 
 class ReferenceProxy:
